@@ -24,8 +24,10 @@ Extra == { KeyZoo, [ElemsList(<<>>) EXCEPT !.len = Some(VInt(0))],
 Sums == {Add(x, y).s : x \in {R_Dict, R_DictRelaxed, BareDict}, y \in {R_Dict, R_DictRelaxed, KeyZoo}}
 Requireds == {MakeRequired(x, NoneOpt).s : x \in {R_Dict, R_DictRelaxed, KeyZoo}}
 
+\* an alias prints as Name<...> and a custom type as it pleases: neither is meant to be evaluated
+Printable(x) == \A y \in SubSchemas(x) : y.t \notin {"alias", "custom"}
 U == UNION {Reach(t, Depth) : t \in ScalarTypes} \cup {BareNone}
-     \cup Level1 \cup Level2 \cup Focus \cup Extra \cup Sums \cup Requireds
+     \cup Level1 \cup Level2 \cup {x \in Focus : Printable(x)} \cup Extra \cup Sums \cup Requireds
 
 Init == s \in U /\ phase = "picked"
 Next == phase = "picked" /\ phase' = "printed" /\ UNCHANGED s
